@@ -65,8 +65,9 @@ MANIFEST_ENTRY = {
             "selects the first commonly supported wamp.2.* subprotocol in the client's order, none iff there is none [ws_select_first_common, "
             "ws_select_none_iff]; both ends then hold the same serializer id, hence the same text/binary framing "
             "[ws_both_same_serializer_and_framing]; 1002/1011 mapping, fail-closed ladders, session told at most/exactly once. "
-            "_partial (full statement kept as a Prop, negation witnessed): rs_refuse_clean (F12), prefix_never_raises (F13, N1), "
-            "rs_limits_error_class (F14). Tied to the code by the runs listed in the rule.",
+            "every refused handshake closes the transport without an exception [rs_refuse_clean, full since the F12 repair]; the send side equals "
+            "the Spec incl. the PayloadExceededError class [rs_limits_error_class, full since the F14 repair]. "
+            "_partial (full statement kept as a Prop, negation witnessed): prefix_never_raises (F13, N1). Tied to the code by the runs listed in the rule.",
     "note": "Trusted: Lean kernel; the hand-written models mirror the code (checked only by the differential runs); Int32StringReceiver and the "
             "serializer libraries are exercised, not verified. messages_in_order across the WebSocket engine relies on C01/C03 and is observed "
             "here only on generated sequences.",
@@ -1199,6 +1200,12 @@ copy of this tree so that the mutated Generated/*.lean does not disturb the shar
  M7 asyncio `frame_length >= self.max_length`       exit 1  rs-recv/asyncio/at-limit-refused, rs-deliver/*->asyncio/at-limit-not-delivered
  M8 twisted client: serializer of the reply unchecked exit 1 rs-hs/twisted/client/unsupported-serializer/session-attached (7f020000)
  M9 twisted accumulator takes one octet too few     exit 1  rs-hs/twisted/server/segmentation-dependent (+ 19 consequences)
+ R1 (after the F12 repair 77273b88) `self.abort()` re-added to asyncio supports_serializer
+                                                    exit 1  rs-hs/asyncio/server/unsupported-serializer/raises-TransportLost (7f000000, [json]);
+                                                            Generated aioServerAbortsOnUnsupported=true, `rs_refuse_clean` no longer checks
+ R2 (after the F14 repair 11645fb6) asyncio send() raises ValueError again
+                                                    exit 1  rs-send/asyncio/over-limit/ValueError-instead-of-PayloadExceededError (513 octets, peer 512);
+                                                            Generated aioSendOverLimitExc=1, `rs_limits_error_class` no longer checks
  H1 harmless: three writes joined into one, `_magic` renamed, two independent assignments of parse_handshake swapped
                                                     exit 0  no VIOLATION line, translator unaffected
 """
